@@ -39,12 +39,12 @@ class ContextManager:
             rule_descriptor: RuleDescriptor = next(self.ruler.match_packet_descriptor(packet_descriptor=packet_descriptor), None)
             if rule_descriptor is None:
                 raise RuleDescriptorMatchError(packet_descriptor=packet_descriptor)
-            schc_packet: Buffer = compress(packet_descriptor=packet_descriptor, rule_descriptor=rule_descriptor)
+            schc_packet: Buffer = compress(packet_descriptor=packet_descriptor, rule_descriptor=rule_descriptor, direction=direction)
 
         elif match_strategy == MatchStrategy.BEST:
             schc_packet: Buffer = None
             for rule_descriptor in self.ruler.match_packet_descriptor(packet_descriptor=packet_descriptor):
-                compressed: Buffer = compress(packet_descriptor=packet_descriptor, rule_descriptor=rule_descriptor)
+                compressed: Buffer = compress(packet_descriptor=packet_descriptor, rule_descriptor=rule_descriptor, direction=direction)
                 if schc_packet is None or compressed.length < schc_packet.length:
                     schc_packet = compressed 
             if schc_packet is None:
@@ -52,8 +52,8 @@ class ContextManager:
         
         return schc_packet
     
-    def decompress(self, schc_packet: Buffer):
+    def decompress(self, schc_packet: Buffer, direction: DirectionIndicator=None):
         rule_descriptor: RuleDescriptor = self.ruler.match_schc_packet(schc_packet=schc_packet)
-        packet: Buffer = decompress(schc_packet=schc_packet, rule_descriptor=rule_descriptor)
+        packet: Buffer = decompress(schc_packet=schc_packet, rule_descriptor=rule_descriptor, direction=direction)
         return packet
 
